@@ -399,20 +399,53 @@ func genStressCase(rt *rapid.T) (ExecCase, *Path) {
 	strict := g.chance(35, "strict")
 	// $.rows[*] ? (<cond over @ with nested filters and computed subscripts>) <tail>
 	cx := gctx{inFilter: true}
+	// subscripts that depend on the bindings in force: @ (the row, not the item a
+	// nested filter was applied to), $, last, variables
+	sbound := func() *Node {
+		key := func(root string, ks ...string) *Node {
+			n := &Node{K: root}
+			cur := n
+			for _, k := range ks {
+				cur.Next = &Node{K: KKey, S: k}
+				cur = cur.Next
+			}
+			return n
+		}
+		switch g.choose("sbound", 30, 12, 10, 8, 8, 8, 8, 16) {
+		case 0:
+			return key(KCur, "pick")
+		case 1:
+			return key(KRoot, "pick")
+		case 2:
+			return key(KCur, "o", "pick")
+		case 3:
+			return &Node{K: KLast}
+		case 4:
+			return &Node{K: KVar, S: "n"}
+		case 5:
+			return &Node{K: KBin, S: "-", A: &Node{K: KLast}, B: key(KCur, "pick")}
+		case 6:
+			n := key(KCur, "n")
+			n.Next.Next = &Node{K: KIdx, Subs: []Sub{{From: &Node{K: KInt, I: 0}}}}
+			return n
+		default:
+			return g.bound(cx)
+		}
+	}
 	var cond *Node
 	switch g.choose("shape", 40, 30, 30) {
 	case 0:
 		cond = g.pred(cx)
 	case 1:
 		// a nested filter followed, in the same chain, by a subscript that uses the outer bindings
-		inner := &Node{K: KCur, Next: &Node{K: KKey, S: "o", Next: &Node{K: KFilter, A: g.pred(cx), Next: &Node{K: KKey, S: "arr", Next: &Node{K: KIdx, Subs: []Sub{{From: g.bound(cx)}}}}}}}
+		inner := &Node{K: KCur, Next: &Node{K: KKey, S: "o", Next: &Node{K: KFilter, A: g.pred(cx), Next: &Node{K: KKey, S: "arr", Next: &Node{K: KIdx, Subs: []Sub{{From: sbound()}}}}}}}
 		cond = &Node{K: KBin, S: g.pick(cmpOps, "cop"), A: inner, B: &Node{K: KInt, I: []int64{10, 20, 30, 40, 50}[g.n(5, "cv")]}}
 	default:
 		// exists() guard with its own subscript inside a bound, then last / @ again
 		guard := &Node{K: KInt, I: 0, Next: &Node{K: KFilter, A: &Node{K: KExists, A: &Node{K: KRoot, Next: &Node{K: KKey, S: "rows", Next: &Node{K: KIdx, Subs: []Sub{{From: &Node{K: KInt, I: int64(g.n(2, "gr"))}}}, Next: &Node{K: KKey, S: g.pick([]string{"arr", "n", "s", "zz"}, "gk"), Next: g.chain(gctx{}, g.n(2, "gl"))}}}}}}}
-		idx := &Node{K: KIdx, Subs: []Sub{{From: guard, To: g.bound(cx)}}}
+		idx := &Node{K: KIdx, Subs: []Sub{{From: guard, To: sbound()}}}
 		if g.chance(50, "list") {
-			idx = &Node{K: KIdx, Subs: []Sub{{From: guard}, {From: g.bound(cx)}}}
+			idx = &Node{K: KIdx, Subs: []Sub{{From: guard}, {From: sbound()}}}
 		}
 		cond = &Node{K: KBin, S: g.pick(cmpOps, "cop2"), A: &Node{K: KCur, Next: &Node{K: KKey, S: "arr", Next: idx}}, B: g.literal()}
 	}
